@@ -57,6 +57,8 @@ SING = [
     ("y*(1 - cos(x))/x", [("x", "0", "0")]),
     ("tau*(x + 1.5)*(x + 1.5)/(1 - exp(-(x + 1.5)/4))", [("x", "-1.5", "0")]),
     ("y*x*x/(exp(x) - 1)", [("x", "0", "0")]),
+    # a removable singularity inside the arms of a Conditional (the limit depends on the arm taken)
+    ("Conditional(Gt(y, 1), x/(exp(x) - 1), 2*x/(exp(x) - 1))", [("x", "0", "Conditional(Gt(y, 1), 1, 2)")]),
     # a factor that appears verbatim in numerator and denominator
     ("(x - a)/(x - a)", [("x", "a", "1")]),
     ("(x + 40)*(x - 10)/(x + 40)", [("x", "-40", "-50")]),
